@@ -284,7 +284,11 @@ impl<W: AsRef<[u64]>> JsonIndex<W> {
             return None;
         }
 
-        let k32 = k as u32;
+        // Ranks are stored as u32 (inputs are capped at u32::MAX bytes), so a larger `k`
+        // can never be reached; truncating it would alias a small rank.
+        let Ok(k32) = u32::try_from(k) else {
+            return None;
+        };
         let n = words.len();
 
         // #40: count `ib_rank` probes so this path's cost can be compared with
@@ -402,7 +406,11 @@ impl<W: AsRef<[u64]>> JsonIndex<W> {
             return None;
         }
 
-        let k32 = k as u32;
+        // Ranks are stored as u32 (inputs are capped at u32::MAX bytes), so a larger `k`
+        // can never be reached; truncating it would alias a small rank.
+        let Ok(k32) = u32::try_from(k) else {
+            return None;
+        };
         let n = words.len();
 
         // Binary search over all words
